@@ -116,6 +116,7 @@ def inline_helpers(facts, rounds=2):
     if not helpers:
         return []
     done = set()
+    callers = {}
     for _ in range(rounds):
         changed = False
         for b in facts["bodies"]:
@@ -133,11 +134,14 @@ def inline_helpers(facts, rounds=2):
                     continue
                 _inline_one(b, i, h)
                 done.add(h["def"])
+                callers.setdefault(h["def"], set()).add(b.get("root") or b["def"])
                 changed = True
         if not changed:
             break
     if done:
         facts["inlined_helpers"] = sorted(done)
+        # closures defined inside a helper keep the helper as their root: remember who called it
+        facts["helper_callers"] = {k: sorted(v) for k, v in callers.items()}
         # a helper all of whose calls were inlined has no life of its own any more
         still_called = set()
         for b in facts["bodies"]:
